@@ -44,6 +44,9 @@ func (np *NatPlus) UnmarshalCBOR(data []byte) error {
 	if err != nil {
 		return errs.Wrap(err)
 	}
+	if dto == nil {
+		return ErrIsNil.WithMessage("NatPlus DTO is nil")
+	}
 	if dto.NatPlus == nil {
 		return ErrIsNil.WithMessage("NatPlus")
 	}
@@ -72,6 +75,9 @@ func (n *Nat) UnmarshalCBOR(data []byte) error {
 	if err != nil {
 		return errs.Wrap(err)
 	}
+	if dto == nil {
+		return ErrIsNil.WithMessage("Nat DTO is nil")
+	}
 	if dto.Nat == nil {
 		return ErrIsNil.WithMessage("Nat")
 	}
@@ -96,6 +102,9 @@ func (i *Int) UnmarshalCBOR(data []byte) error {
 	dto, err := serde.UnmarshalCBOR[*intDTO](data)
 	if err != nil {
 		return errs.Wrap(err)
+	}
+	if dto == nil {
+		return ErrIsNil.WithMessage("Int DTO is nil")
 	}
 	if dto.Int == nil {
 		return ErrIsNil.WithMessage("Int")
@@ -125,6 +134,9 @@ func (u *Uint) UnmarshalCBOR(data []byte) error {
 	dto, err := serde.UnmarshalCBOR[*uintDTO](data)
 	if err != nil {
 		return errs.Wrap(err)
+	}
+	if dto == nil {
+		return ErrIsNil.WithMessage("Uint DTO is nil")
 	}
 	if dto.Modulus == nil {
 		return ErrIsNil.WithMessage("modulus")
@@ -164,6 +176,9 @@ func (r *Rat) UnmarshalCBOR(data []byte) error {
 	if err != nil {
 		return errs.Wrap(err)
 	}
+	if dto == nil {
+		return ErrIsNil.WithMessage("Rat DTO is nil")
+	}
 	if dto.A == nil {
 		return ErrIsNil.WithMessage("numerator")
 	}
@@ -192,6 +207,9 @@ func (z *ZMod) UnmarshalCBOR(data []byte) error {
 	dto, err := serde.UnmarshalCBOR[*zmodDTO](data)
 	if err != nil {
 		return errs.Wrap(err)
+	}
+	if dto == nil {
+		return ErrIsNil.WithMessage("ZMod DTO is nil")
 	}
 	if dto.Modulus == nil {
 		return ErrIsNil.WithMessage("modulus")
